@@ -48,6 +48,10 @@ def assign_nd(ctx, shape, lkinds, kinds, rhs='scalar', via='setitem', inplace=Tr
             elif kind == 'list2':
                 i0, i1 = ctx.choice('p%s0' % d, n), ctx.choice('p%s1' % d, n)
                 idx.append([i0, i1]); sel.append([i0, i1])
+            elif kind == 'neg-run':          # a run of consecutive negative positions
+                idx.append([-2, -1]); sel.append([n - 2, n - 1])
+            elif kind == 'neg-wrap':         # consecutive integers that wrap around the end of the axis
+                idx.append([-1, 0]); sel.append([n - 1, 0])
             elif kind == 'slice':
                 idx.append(slice(0, n - 1)); sel.append(list(range(0, n - 1)))
             elif kind == 'mask':
@@ -546,6 +550,10 @@ def templates():
     for via, inplace in (('setitem', True), ('put', False)):
         add('mixed-list-rhs-%s' % via, 'mixed_list_rhs', cost=1, via=via, inplace=inplace)
     # positional
+    for kinds in (('neg-run',), ('neg-wrap',)):
+        for via, inplace in (('setitem', True), ('put', False)):
+            add('pos-1d-%s-%s' % (kinds[0], via), 'assign_nd', cost=1, shape=[3], lkinds=['U'], kinds=list(kinds), rhs='scalar', position=True, via=via, inplace=inplace)
+        add('pos-2d-%s' % kinds[0], 'assign_nd', cost=2, shape=[2, 3], lkinds=['U', 'i'], kinds=['full', kinds[0]], rhs='array', position=True)
     for kinds in (('scalar',), ('list2',), ('mask',), ('slice',)):
         add('pos-1d-%s' % kinds[0], 'assign_nd', cost=2, shape=[3], lkinds=['U'], kinds=list(kinds), rhs='scalar', position=True)
     for kinds in (('scalar', 'list2'), ('list2', 'full'), ('slice', 'scalar'), ('mask', 'list2'), ('list2', 'list2')):
